@@ -228,6 +228,9 @@ func (s *Solver) declareFor(t *Term) {
 		if vars[n] == SStr {
 			// one SMT character = one Go byte
 			s.send(fmt.Sprintf("(assert (str.in_re %s (re.* (re.range \"\\u{0}\" \"\\u{ff}\"))))", n))
+			if fl, ok := fixedLenOf(n); ok {
+				s.send(fmt.Sprintf("(assert (= (str.len %s) %d))", n, fl))
+			}
 		}
 	}
 }
